@@ -21,7 +21,7 @@ SHRINK_LISTS = ("ops",)
 PROBES = {"C13": ["prior-correlated", "prior-diagonal", "step>=10", "time-indexed", "ukf:k<0", "ukf:k>=0",
                   "ukf:default-k", "ukf:k-varies", "ekf:nonlinear", "pf:judged", "dims>=4", "spread>=1e4"]}
 TS = float(os.environ.get("PPSIM_TOLSCALE", "1"))
-TOL = 1e-11 * TS
+TOL = 1e-10 * TS
 
 
 class LinNLS(pp.module.NLS):
@@ -99,7 +99,7 @@ def _psd(P, what, step, key, need, slack=0.0):
     nrm = max(np.abs(M).max(), 1e-300)
     if not np.isfinite(M).all():
         raise Violation("C13.cov", "%s: covariance not finite" % what, step, key + ":nonfinite")
-    allow = 1e-11 * TS * nrm + slack
+    allow = 1e-10 * TS * nrm + slack
     asym = np.abs(M - M.T).max()
     if asym > allow:
         raise Violation("C13.cov", "%s: covariance asymmetric by %.3e (norm %.3e, allowance %.3e)" % (what, asym, nrm, allow),
@@ -196,8 +196,11 @@ def execute(plan, prop, out, tr):
         xe, Pe, un, yn = npd(x_est), npd(P), npd(u), npd(y)
         if filt in ("EKF", "UKF"):
             if c["plant"] == "linear":
-                xr, Pr, info = refmath.kalman_step(xe, Pe, un, yn, Mt["A"], Mt["B"], Mt["C"], Mt["D"], Mt["c1"], Mt["c2"],
-                                                   npd(Q), npd(R))
+                try:
+                    xr, Pr, info = refmath.kalman_step(xe, Pe, un, yn, Mt["A"], Mt["B"], Mt["C"], Mt["D"], Mt["c1"], Mt["c2"],
+                                                       npd(Q), npd(R))
+                except np.linalg.LinAlgError:
+                    out.declined("C13.kalman(singular S in the reference)"); break
             else:
                 f0, g0, A_, B_, C_, D_ = nls_ref(P_nl, xe, un, float(i))
                 xm = f0
@@ -208,7 +211,7 @@ def execute(plan, prop, out, tr):
                 Pr = refmath.sym((np.eye(n) - K @ C_) @ Pm)
                 info = {"S": S, "Pm": Pm}
             condS = np.linalg.cond(info["S"])
-            slack = 1e1 * 2.3e-16 * TS * condS * np.abs(info["Pm"]).max()
+            slack = 1e2 * 2.3e-16 * TS * condS * np.abs(info["Pm"]).max()
             amp = 1.0
             if filt == "UKF" and k is not None and k < 0:
                 amp = 1 + abs(k / (n + k)) * 10
@@ -283,7 +286,7 @@ def describe(prop):
         "real": ["pypose.module.EKF", "pypose.module.UKF", "pypose.module.PF", "pypose.module.NLS (linearisation)",
                  "pypose.bmv / bvv"],
         "stub": ["plants (LinNLS, GenNLS) and the seeded noise source"],
-        "assumptions": ["float64; comparison tolerance 1e-11 * cond(S) (x10 for covariances; widened for negative UKF "
+        "assumptions": ["float64; comparison tolerance 1e-10 * cond(S) (x10 for covariances; widened for negative UKF "
                         "centre weights), abstains above 1e-3", "PF: particle model 'X_i ~ N(x, nP), weights from the "
                         "Gaussian likelihood of y at g(X_i,u), estimate = mean of resampled f(X_i,u)'; 6-sigma band with "
                         "sigma^2 = 2 diag(A P_post A^T)/(N * ESS fraction); abstains when ESS < 5%",
